@@ -137,8 +137,20 @@ class SModel(KModel):
         # ---- crate-local calls we summarise
         lib = self.interp.lib
         if lib.is_role(name, 'CubicSpline::thomas') and self.scn.get('summarise_thomas', True):
-            k, up, mid, low, rhs = [deref_all(a) for a in args]
-            self.thomas_calls.append({'k': k, 'up': up, 'mid': mid, 'low': low, 'rhs': rhs, 'where': line_of(e)})
+            vals = [deref_all(a) for a in args]
+            k, rhs = vals[0], vals[-1]
+            coeffs = []
+            for v in vals[1:-1]:
+                if isinstance(v, Obj) and v.kind == 'arr1':
+                    coeffs.append(v)
+                elif isinstance(v, Enum):
+                    coeffs += [deref_all(x) for x in self._struct_fields_in_order(v) if isinstance(deref_all(x), Obj) and deref_all(x).kind == 'arr1']
+            labels = getattr(lib, 'thomas_labels', None) or ['up', 'mid', 'low']
+            if len(coeffs) != 3:
+                raise Unsupported("the tridiagonal solver is called with %d coefficient arrays" % len(coeffs), e)
+            rec = dict(zip(labels, coeffs))
+            rec.update({'k': k, 'rhs': rhs, 'where': line_of(e)})
+            self.thomas_calls.append(rec)
             if isinstance(k, Obj) and k.kind == 'arr2':
                 k.d['t'].sym = 'K%d' % len(self.thomas_calls)
                 k.d['t'].store.clear()
@@ -194,6 +206,8 @@ class SModel(KModel):
                 return v
             if isinstance(v, Obj) and v.kind == 'windows':
                 return Obj('rowiter', tree=('win', v.d['axis'], v.d['size']))
+            if isinstance(v, Obj) and v.kind == 'arr1':
+                return Obj('rowiter', tree=('elems', v))       # `&array1` / `array1.iter()` as an IntoIterator operand of zip
             return None
         if name == 'std::iter::Iterator::zip' and as_rowiter(a0) is not None:
             b = as_rowiter(args[1])
@@ -201,6 +215,8 @@ class SModel(KModel):
                 return Obj('rowiter', tree=('zip', as_rowiter(a0).d['tree'], b.d['tree']))
         if name == 'std::iter::Iterator::enumerate' and as_rowiter(a0) is not None:
             return Obj('rowiter', tree=('enum', as_rowiter(a0).d['tree']))
+        if name in ('std::iter::Iterator::rev', 'std::iter::DoubleEndedIterator::rev') and isinstance(a0, Obj) and a0.kind == 'rowiter':
+            return Obj('rowiter', tree=('rev', a0.d['tree']))
         if name == 'std::iter::Iterator::skip' and as_rowiter(a0) is not None:
             k = deref_all(args[1])
             if isinstance(k, Num) and k.const() is not None and k.const() >= 0:
@@ -266,6 +282,13 @@ class SModel(KModel):
                 return a0
         return super().call(name, cal, args, e, frame)
 
+    def _struct_fields_in_order(self, v):
+        """field values of a struct value in declaration order"""
+        for a in self.interp.lib.f.get('adts', []):
+            if a['path'] == v.adt and a.get('variants'):
+                return [v.fields[f_['name']] for f_ in a['variants'][0]['fields'] if f_['name'] in v.fields]
+        return [v.fields[k_] for k_ in sorted(v.fields)]
+
     def _err(self):
         self.ret_err = Enum('BuilderError', 'ValueError', {'0': Obj('solver-error')})
         return ERR(self.ret_err)
@@ -318,6 +341,8 @@ class SModel(KModel):
             return Obj('arr1', t=t2, lo=a.d['lo'], hi=a.d['hi'])
         if last == 'len':
             return Num(a.d['hi'] - a.d['lo'])
+        if last == 'iter':
+            return Obj('rowiter', tree=('elems', a))
         raise Unsupported("ndarray call `%s` on a 1-D coefficient array is not part of the reviewed solver surface" % last, e)
 
     # ------------------------------------------------------------------ arr2
@@ -328,6 +353,11 @@ class SModel(KModel):
 
     def arr2_call(self, last, a, args, e):
         t = a.d['t']
+        if last == 'index_axis_move' and e is not None and e.get('args') and 'ViewRepr<&mut' in (e['args'][0].get('ty') or '').replace("&'a mut", '&mut'):
+            # consuming a mutable view gives the mutable row
+            if not is_axis0(args[1]):
+                raise Unsupported("index_axis_move on an axis other than Axis(0) of a lane array", e)
+            return Obj('rowmut', a=a, i=deref_all(args[2]).r + a.d['lo'])
         if last in ('index_axis', 'index_axis_move'):
             if not is_axis0(args[1]):
                 raise Unsupported("index_axis on an axis other than Axis(0) of a lane array", e)
@@ -576,10 +606,29 @@ class SModel(KModel):
         if kind == 'zip':
             return Tup([self._rowiter_elem(tree[1], j, lens, e, off), self._rowiter_elem(tree[2], j, lens, e, off)])
         if kind == 'enum':
-            if off:
-                raise Unsupported("skip after enumerate", e)
-            return Tup([Num(j), self._rowiter_elem(tree[1], j, lens, e, off)])
+            return Tup([Num(j + off), self._rowiter_elem(tree[1], j, lens, e, off)])
+        if kind == 'elems':
+            a = tree[1]
+            lens.append(a.d['hi'] - a.d['lo'] - off)
+            return Ref(self.arr1_place(a, Num(j + off), e))
         raise Unsupported("iterator adaptor %r" % (kind,), e)
+
+    @classmethod
+    def _has_rev(cls, tree):
+        return tree[0] == 'rev' or any(isinstance(x, tuple) and cls._has_rev(x) for x in tree[1:])
+
+    @classmethod
+    def _first_mut_offset(cls, tree, off=0):
+        if tree[0] == 'rows':
+            return off if tree[2] else None
+        if tree[0] == 'skip':
+            return cls._first_mut_offset(tree[1], off + tree[2])
+        for x in tree[1:]:
+            if isinstance(x, tuple):
+                r = cls._first_mut_offset(x, off)
+                if r is not None:
+                    return r
+        return None
 
     @staticmethod
     def _shortest(lens, e):
@@ -599,12 +648,24 @@ class SModel(KModel):
         self.loop_vars += 1
         var = 'j%d' % self.loop_vars
         j = Rat.atom(var)
+        # reversal: `rev()` of the whole chain, possibly followed by `skip(k)` (which then drops the LAST k positions)
+        rev, back_skip = False, 0
+        t_ = tree
+        if t_[0] == 'skip' and t_[1][0] == 'rev':
+            back_skip, t_ = t_[2], t_[1]
+        if t_[0] == 'rev':
+            rev, tree = True, t_[1]
+        if self._has_rev(tree):
+            raise Unsupported("rev() inside an iterator chain", e)
+        # the loop variable is the array index of the first row that is written (position + its skip offset), so that what the
+        # body computes is expressed by array index from the start
+        c0 = Rat.const(self._first_mut_offset(tree) or 0)
         lens = []
-        elem = self._rowiter_elem(tree, j, lens, e)
+        elem = self._rowiter_elem(tree, j - c0, lens, e)
         trip = self._shortest(lens, e)
-        start, end = Rat.const(0), trip
+        start, end = c0, c0 + trip - back_skip
         snapshot = [(t, dict(t.store)) for t in self.arrays]
-        self.cur_loop = {'var': var, 'lo': start, 'hi': end - 1, 'rev': False, 'where': line_of(e)}
+        self.cur_loop = {'var': var, 'lo': start, 'hi': end - 1, 'rev': rev, 'where': line_of(e)}
         self.loops = getattr(self, 'loops', []) + [self.cur_loop]
         run_body(elem)
         for t, before in snapshot:
